@@ -12,7 +12,7 @@ namespace VL.C08
 open VL VL.Appr
 
 /-- a list of `n` distinct candidates of `cands`, reported individually, has the selection shape -/
-theorem selShape_map_cand {cands : List Cand} {n : Nat} {l : List Cand} (hlen : l.length = n)
+theorem selShape_map_cand_pav {cands : List Cand} {n : Nat} {l : List Cand} (hlen : l.length = n)
     (hsub : ∀ c ∈ l, c ∈ cands) (hnd : l.Nodup) : SelShape cands n (l.map Slot.cand) := by
   have hno : ∀ T, Slot.tie T ∉ l.map Slot.cand := by
     intro T h
@@ -76,7 +76,7 @@ theorem spav_shape (votes : Profile) (hwf : WF votes) (n : Nat) (hlen : n ≤ (a
   have hle : el.length ≤ n := by
     have := spavGo_length votes n [] el h
     simpa using this
-  refine selShape_map_cand ?_ hsub hnd
+  refine selShape_map_cand_pav ?_ hsub hnd
   rcases hfull with hfull | hfull
   · exact hfull
   · -- nobody is left standing: every candidate is elected
@@ -108,7 +108,7 @@ theorem pavStep_shape (coefs : List Rat) (hc : CoefsOK coefs) (votes : Profile) 
     (r : List Slot) (h : (pavStep coefs votes n).1 = .ok r) : SelShape (allCands votes) n r := by
   obtain ⟨h1, h2, h3, h4⟩ := C12.pav_result_shape coefs hc votes hwf n r h
   rw [h1]
-  exact selShape_map_cand h2 h4 h3
+  exact selShape_map_cand_pav h2 h4 h3
 
 theorem pav_shape (votes : Profile) (hwf : WF votes) (n : Nat) (r : List Slot) (h : pav votes n = .ok r) :
     SelShape (allCands votes) n r :=
